@@ -51,6 +51,7 @@ def plan(tier, seed):
 
 def required(tier):
     cl = ['route:ordinary', 'route:antimeridian', 'route:polar', 'route:high', 'route:short-hop',
+          'route:weather-domain',
           'route:above-cruise', 'route:close', 'capacity:aligned', 'capacity:not-aligned',
           'outcome:flown', 'outcome:rejected', 'mass-iteration:on', 'mass-iteration:off',
           'resampled:own-times', 'table:sample', 'table:variant', 'table:low-ceiling', 'starting-mass:given',
@@ -67,6 +68,7 @@ def run_shard(spec, rec):
 
     import AEIC.trajectories.builders as tb
     from AEIC.config import Config
+    from AEIC.missions import Mission
     from AEIC.performance.models import PerformanceModel
     from AEIC.trajectories.builders.base import Builder
     from vlib import flightgen as fg
@@ -96,6 +98,12 @@ def run_shard(spec, rec):
         for ceil in (10000, 12000, 16000):
             models.append(('low-ceiling', PerformanceModel.from_data(
                 fg.special_model(base, ceiling_ft=ceil))))
+        models.append(('shallow-descent', PerformanceModel.from_data(
+            fg.special_model(base, descent_rocd_scale=0.7))))
+        wx_models = [m_ for m_ in models if m_[0] in ('sample', 'shallow-descent')]
+        wx_pairs = [('BOS', 'ATL'), ('ATL', 'BOS'), ('JFK', 'ATL'), ('BOS', 'JFK'), ('JFK', 'BOS'),
+                    ('IAD', 'BOS'), ('ATL', 'JFK'), ('JFK', 'IAD')]
+        import pandas as pd
         kinds = ['ordinary', 'ordinary', 'antimeridian', 'polar', 'near-antipodal', 'high',
                  'above-cruise', 'close', 'below-sea-level', None, None]
         ks = [spec['only']] if 'only' in spec else range(spec['n'])
@@ -110,6 +118,20 @@ def run_shard(spec, rec):
             iterate = rng.random() < 0.35
             opts = tb.Options(iterate_mass=iterate, max_mass_iters=rng.choice([5, 10, 30]),
                               mass_iter_reltol=rng.choice([1e-2, 1e-3, 1e-4]))
+            # one case in six flies through the repository's weather file (winds change the
+            # ground speed; positions must still sit at the recorded ground distance)
+            windy = rng.random() < 0.17
+            if windy:
+                label, pm = rng.choice(wx_models)
+                o_, d_ = rng.choice(wx_pairs)
+                t0_ = pd.Timestamp('2024-09-01T12:00:00Z')
+                mission = Mission(origin=o_, destination=d_, departure=t0_,
+                                  arrival=t0_ + pd.Timedelta(hours=3),
+                                  load_factor=rng.uniform(0.5, 1.0), aircraft_type='738')
+                rk = 'weather-domain'
+                fc, fz, fd = (rng.choice([0.1, 0.05, 1 / 7]) for _ in range(3))
+                opts = tb.Options(iterate_mass=iterate, max_mass_iters=5, mass_iter_reltol=1e-2,
+                                  use_weather=True)
             builder = tb.LegacyBuilder(options=opts, legacy_options=tb.LegacyOptions(
                 frac_step_clm=fc, frac_step_crz=fz, frac_step_des=fd))
             given = rng.random() < 0.3
